@@ -16,14 +16,15 @@ ExplainAt == atoi(IOEnv.EXPLAIN)
 TInit ==
     /\ l = 1
     /\ hmap = <<>>
-    /\ cf = [n |-> 0, policy |-> "silent", layout |-> "packed", cw |-> 1]
+    /\ cf = [n |-> 0, policy |-> "silent", layout |-> "packed", cw |-> 1, ct |-> ""]
     /\ obj = <<<<>>, <<>>>>
     /\ last = [op |-> "Init", k |-> 0, a |-> NoArg, res |-> Void]
     /\ pre = [obj |-> <<<<>>, <<>>>>]
 
 (* a new execution: fresh default-constructed objects of the configuration named in the event *)
 TReset(e) ==
-    /\ cf' = [n |-> e.a.n, policy |-> e.a.policy, layout |-> e.a.layout, cw |-> e.a.cw]
+    /\ cf' = [n |-> e.a.n, policy |-> e.a.policy, layout |-> e.a.layout, cw |-> e.a.cw,
+              ct |-> IF "ct" \in DOMAIN e.a THEN e.a.ct ELSE ""]
     /\ obj' = <<<<>>, <<>>>>
     /\ pre' = [obj |-> obj]
     /\ last' = [op |-> "Reset", k |-> 1, a |-> e.a, res |-> Void]
@@ -86,7 +87,7 @@ Dispatch(e) ==
     \/ e.op = "GetLine"       /\ GetLine(k, a.text, a.delim, a.rv)
 
 (* equal characters => equal hash, whatever the history, the stale cells, the layout, the capacity *)
-HKey(k)   == <<cf'.cw, obj'[k]>>
+HKey(k)   == <<cf'.cw, cf'.ct, obj'[k]>>
 HKnown(k) == IF HKey(k) \in DOMAIN hmap THEN hmap[HKey(k)] ELSE "first-seen"
 HashStep(e) ==
     IF "h" \notin DOMAIN e THEN hmap' = hmap
